@@ -20,7 +20,7 @@ type wireField struct {
 	Omit           string // "", "omitempty", "omitzero"
 }
 
-func leanBytes(s string) string {
+func wireLeanBytes(s string) string {
 	b := []byte(s)
 	parts := make([]string, len(b))
 	for i, x := range b {
@@ -32,7 +32,7 @@ func leanBytes(s string) string {
 func leanBytesList(ss []string) string {
 	parts := make([]string, len(ss))
 	for i, s := range ss {
-		parts[i] = leanBytes(s)
+		parts[i] = wireLeanBytes(s)
 	}
 	return "[" + strings.Join(parts, ", ") + "]"
 }
@@ -221,7 +221,7 @@ func init() {
 				if f.Go == "(embedded)" || f.JSON == "-" {
 					continue
 				}
-				fmt.Fprintf(&b, "@[simp] def %s_%s_name : List UInt8 := %s -- %q\n", label, f.Go, leanBytes(f.JSON), f.JSON)
+				fmt.Fprintf(&b, "@[simp] def %s_%s_name : List UInt8 := %s -- %q\n", label, f.Go, wireLeanBytes(f.JSON), f.JSON)
 				fmt.Fprintf(&b, "@[simp] def %s_%s_omit : Bool := %v\n", label, f.Go, f.Omit != "")
 			}
 			b.WriteString("\n")
@@ -242,7 +242,7 @@ func init() {
 
 		// the wire version tag
 		if v, ok := c.ConstString(j, "wireVersion"); ok {
-			fmt.Fprintf(&b, "/-- internal/jsonrpc2/wire.go `wireVersion` -/\ndef wireVersion : List UInt8 := %s -- %q\n\n", leanBytes(v), v)
+			fmt.Fprintf(&b, "/-- internal/jsonrpc2/wire.go `wireVersion` -/\ndef wireVersion : List UInt8 := %s -- %q\n\n", wireLeanBytes(v), v)
 			c.Fact("wire.version", v)
 		} else {
 			c.Errf("wire: wireVersion not a string constant")
@@ -353,7 +353,7 @@ func init() {
 			if !ok {
 				c.Errf("wire: scanEvents key %s not found", k)
 			}
-			fmt.Fprintf(&b, "def sse_%s : List UInt8 := %s -- %q\n", k, leanBytes(v), v)
+			fmt.Fprintf(&b, "def sse_%s : List UInt8 := %s -- %q\n", k, wireLeanBytes(v), v)
 		}
 		for _, p := range [][2]string{{"evt.Name", "Name"}, {"evt.ID", "ID"}, {"evt.Retry", "Retry"}} {
 			f, ok := wr[p[0]]
@@ -362,10 +362,10 @@ func init() {
 				f = "%s\n"
 			}
 			pre := strings.TrimSuffix(f, "%s\n")
-			fmt.Fprintf(&b, "def sse_write%s : List UInt8 := %s -- %q\n", p[1], leanBytes(pre), pre)
+			fmt.Fprintf(&b, "def sse_write%s : List UInt8 := %s -- %q\n", p[1], wireLeanBytes(pre), pre)
 		}
 		if len(writeStrings) == 2 && writeStrings[1] == "\n\n" {
-			fmt.Fprintf(&b, "def sse_writeData : List UInt8 := %s -- %q\n", leanBytes(writeStrings[0]), writeStrings[0])
+			fmt.Fprintf(&b, "def sse_writeData : List UInt8 := %s -- %q\n", wireLeanBytes(writeStrings[0]), writeStrings[0])
 		} else {
 			c.Errf("wire: writeEvent WriteString calls are not [\"data: \", \"\\n\\n\"]: %q", writeStrings)
 			b.WriteString("def sse_writeData : List UInt8 := []\n")
